@@ -18,7 +18,7 @@ chk.extra['rule'] = ('grammar-directed generator of whole .ff/.itp/.map/.mapping
                      'are generated against toy force fields and compared through the driver; distinct = distinct protocol line')
 quiet_vermouth_logs()
 TABLES = c13_extract.extract()
-chk.lean(['VermouthProps.C13', 'VermouthProps.C13Tables', 'VermouthProps.C13Maps', 'VermouthProps.C13Dir'], 'driver_c13',
+chk.lean(['VermouthProps.C13', 'VermouthProps.C13Tables', 'VermouthProps.C13Maps', 'VermouthProps.C13Dir', 'VermouthProps.C13Maps2'], 'driver_c13',
          generated={'C13Tables.lean': c13_extract.render(TABLES)})
 
 import vermouth
@@ -1295,6 +1295,92 @@ def run_ffdisp():
 
 
 # ----------------------------------------------------------------------------------------------
+# 7b. the base SectionLineParser (no finalize_section override) on a dispatch table of its own;
+#     ITPDirector._split_atoms_and_parameters as a component; the guards that no file can reach
+# ----------------------------------------------------------------------------------------------
+def run_base_components():
+    rng = chk.rng('base')
+    seen = []
+
+    class Bare(parser_utils.SectionLineParser):
+        COMMENT_CHAR = ';'
+
+        @parser_utils.SectionLineParser.section_parser('a')
+        @parser_utils.SectionLineParser.section_parser('a', 'b')
+        @parser_utils.SectionLineParser.section_parser('c')
+        @parser_utils.SectionLineParser.section_parser('c', 'b', 'd')
+        @parser_utils.SectionLineParser.section_parser('a', 'b', 'e')
+        def _h(self, line, lineno=0):
+            seen.append([list(self.section), line])
+
+        def _macros(self, line, lineno=0):     # keep the table to the five paths above + macros
+            seen.append([list(self.section), line])
+    table = sorted(list(p) for p in Bare.METH_DICT)
+    heads = ['a', 'b', 'c', 'd', 'e', 'x', 'macros']
+    cases = []
+    for _ in range(6000 if chk.thorough else 600):
+        cases.append([(0, rng.choice(heads)) if rng.random() < 0.6 else (1, rng.choice(['t1', 't2'])) for _ in range(rng.randint(0, 10))])
+    reqs = [line('basedisp', table, [[k, t] for k, t in seq]) for seq in cases]
+    for i, (seq, ln, mo) in enumerate(zip(cases, reqs, ask(reqs))):
+        del seen[:]
+        try:
+            list(Bare().parse(iter([('[ %s ]' % t) if k == 0 else t for k, t in seq])))
+            im = 'ok ' + enc(seen)
+        except (IOError, KeyError):
+            im = 'error'
+        errs = []
+        if im != 'error' and [t for _, t in seen] != [t for k, t in seq if k == 1]:
+            errs.append('content lines delivered %r, written %r' % (seen, seq))
+        chk.count('basedisp_' + im.split()[0])
+        chk.case('basedisp-%d' % i, ln, im, mo, errs, im != 'error' and len(seen) >= 2)
+    # _split_atoms_and_parameters(tokens, atom_idxs) with indices, bounded / open slices and an entry that is neither
+    d = ITPDirector(ForceField(name='verif'))
+    cases = [(['1', '2', '3'], [[9]]), (['1', '2'], [[0, 0], [9]]), ([], [[2, 0]])]
+    for _ in range(6000 if chk.thorough else 600):
+        toks = [str(rng.randint(1, 9)) for _ in range(rng.randint(0, 7))]
+        idxs, used = [], 0
+        for _ in range(rng.randint(1, 3)):      # disjoint, increasing (as every entry of atom_idxs is)
+            k = rng.random()
+            if k < 0.55:
+                idxs.append([0, used])
+                used += 1
+            elif k < 0.8:
+                w = rng.randint(1, 3)
+                idxs.append([1, used, used + w])
+                used += w
+            elif k < 0.93:
+                idxs.append([2, used])
+                break
+            else:
+                idxs.append([9])
+        cases.append((toks, idxs))
+    reqs = [line('itpsplit', t, ix) for t, ix in cases]
+    for i, ((toks, ix), ln, mo) in enumerate(zip(cases, reqs, ask(reqs))):
+        real = [e[1] if e[0] == 0 else slice(e[1], e[2]) if e[0] == 1 else slice(e[1], None) if e[0] == 2 else 'x' for e in ix]
+        try:
+            atoms, params = d._split_atoms_and_parameters(collections.deque(toks), real)
+            im = 'ok %s %s' % (enc([a[0] for a in atoms]), enc(list(params)))
+        except (IOError, IndexError):
+            im = 'error'
+        errs = []
+        if any(e[0] == 9 for e in ix) and im != 'error' and not any(e[0] == 2 for e in ix[:[e[0] for e in ix].index(9)]):
+            errs.append('an atom_idxs entry that is neither an index nor a slice was accepted')
+        chk.count('itpsplit_' + im.split()[0])
+        chk.case('itpsplit-%d' % i, ln, im, mo, errs, True)
+    # guards no file can reach (table theorems delete_sections_only_in_links / itp_idx_kinds_known): the code
+    # still has to raise when called that way
+    for ctype, ctx in (('block', vermouth.molecule.Block()), ('modification', vermouth.molecule.Modification())):
+        try:
+            ffinput._base_parser(collections.deque(['A', 'B', '1']), ctx, context_type=ctype, section='bonds', natoms=2, delete=True)
+            im = 'accepted'
+        except IOError:
+            im = 'error'
+        chk.count('delete_outside_link_' + im)
+        chk.case('delete-outside-link-' + ctype, '_base_parser(delete=True, context_type=%r)' % ctype, im, None,
+                 [] if im == 'error' else ['removal of an interaction outside a link was accepted'], True)
+
+
+# ----------------------------------------------------------------------------------------------
 # 8. ITP files
 # ----------------------------------------------------------------------------------------------
 ITP_SECTIONS = ['bonds', 'angles', 'dihedrals', 'constraints', 'pairs', 'exclusions', 'virtual_sitesn',
@@ -1382,9 +1468,11 @@ def run_itp():
             elif k < 0.6:
                 j = [q for q, t in enumerate(bad) if t.startswith('[ atoms ]')][0]
                 bad.insert(j + 2, bad[j + 1])
-            elif k < 0.65:
-                bad += ['[ bonds ]', rng.choice(['0 1 1', '1 99 1', 'BB 1 1'])]
-            elif k < 0.85:
+            elif k < 0.7:
+                refs = ['0 1 1', '1 99 1', 'BB 1 1', '+1 2 1', '1_0 1 1', '00 1 1', '-1 1 1', '1 +BB 1']
+                bad += ['[ bonds ]', refs[(i // 3) % len(refs)]]
+                chk.count('itp_fault_reference')
+            elif k < 0.87:
                 # too few tokens for the arity of a fixed-arity section, in the first or in a later moleculetype
                 short = rng.choice([('bonds', '1'), ('angles', '1 2'), ('dihedrals', '1 2 1'), ('constraints', '2'),
                                     ('pairs', '1'), ('virtual_sites2', '1 2'), ('virtual_sites3', '1 2 1'),
@@ -1515,6 +1603,8 @@ def run_maps():
                 tos = [('!' if rng.random() < 0.2 else '') + rng.choice(atoms['cg']) for _ in range(rng.randint(0, 4))]
                 m[a] = tos
                 lines.append('%d %s %s%s' % (k + 1, a, ' '.join(tos), rng.choice(['', ' ; c'])))
+                if rng.random() < 0.15:
+                    lines.append(rng.choice(['', '   ', '; only a comment', '\t']))     # skipped lines
             if not simple and rng.random() < 0.2:
                 lines += ['[ chiral ]', 'CB CA N C']
             decl[res] = m
@@ -1744,6 +1834,7 @@ run_weights()
 run_subst()
 run_pyint()
 run_ffdisp()
+run_base_components()
 run_ff()
 run_itp()
 run_maps()
